@@ -161,6 +161,20 @@ Theorem C07_cache_key_separates_contempt :
 Proof. exact contempt_separated. Qed.
 Print Assumptions C07_cache_key_separates_contempt.
 
+(** scaleClipPack (the step between the accumulators and layer 2): the model of the generic C++
+    loop (sign-extend, arithmetic shift, clamp — bounds regenerated from vectorop.hpp) equals the
+    specification "floor(s / 2^shift) clipped to [0,127]" on every S16 lane value, hence the
+    vector handed to layer 2 is that pure function of the accumulator pair.  This is the proved
+    reference against which every SIMD variant's scaleClipPack is compared (differentially). *)
+Theorem C07_scaleClipPack_spec :
+  (forall x, 0 <= x < M16 -> clipLaneG x = scaleClipSpec (s16val x)) /\
+  (forall n wtm (st : state16 n),
+     l1OutClipped n wtm st =
+     map (fun x => scaleClipSpec (s16val x)) (lanes n (l1Out (getLin wtm (cur st))))
+     ++ map (fun x => scaleClipSpec (s16val x)) (lanes n (l1Out (getLin (negb wtm) (cur st))))).
+Proof. exact (conj clipLane_spec l1OutClipped_spec). Qed.
+Print Assumptions C07_scaleClipPack_spec.
+
 (** Consequence for the network value: whatever layers 2-4 compute — ANY function [later] of the
     accumulator pair (side to move first) and of the piece count that selects the head — the
     result is a function of the position that has both symmetries.  That the real layers 2-4
